@@ -17,15 +17,15 @@ import (
 )
 
 type c13Case struct {
-	Data     bq.Dataset  `json:"data"`
-	From     []string    `json:"from"`
-	Clauses  []bq.Clause `json:"clauses"`
-	Grouped  bool        `json:"grouped,omitempty"`
+	Data    bq.Dataset  `json:"data"`
+	From    []string    `json:"from"`
+	Clauses []bq.Clause `json:"clauses"`
+	Grouped bool        `json:"grouped,omitempty"`
 	// Shadow (grouped only): the grouping key is projected AS the name of another pattern
 	// binding, which is itself aggregated: `select ?b as ?a, count(?a) ... group by ?a`
-	Shadow bool `json:"shadow,omitempty"`
-	Choices  []int       `json:"choices"` // drives the construction of the expression from the rows without HAVING
-	Excluded []string    `json:"excluded,omitempty"`
+	Shadow   bool     `json:"shadow,omitempty"`
+	Choices  []int    `json:"choices"` // drives the construction of the expression from the rows without HAVING
+	Excluded []string `json:"excluded,omitempty"`
 	// ConstFirst: bit i set = the i-th constant comparison is written `constant op binding`
 	// (the grammar admits it; the expression builder may reject it, it must not misread it)
 	ConstFirst uint `json:"const_first,omitempty"`
@@ -375,6 +375,10 @@ func checkC13(ctx *pbt.Ctx, c c13Case) error {
 	if err != nil {
 		return err
 	}
+	if bout.Hung && !bout.Crashed {
+		ctx.Label("no-result-within-bound-twice(C08)")
+		return nil // termination is C08's statement; this property cannot judge a run without a result
+	}
 	if bout.Crashed || bout.Hung {
 		ctx.Label("base-query-crashes(C03/C08)")
 		return nil
@@ -398,6 +402,10 @@ func checkC13(ctx *pbt.Ctx, c c13Case) error {
 	out, err := runBQL(BQLReq{Graphs: datasetGraphs(c.Data), Runs: []RunSpec{{Text: text}}})
 	if err != nil {
 		return err
+	}
+	if out.Hung && !out.Crashed {
+		ctx.Label("no-result-within-bound-twice(C08)")
+		return nil // termination is C08's statement; this property cannot judge a run without a result
 	}
 	if out.Crashed || out.Hung {
 		return fmt.Errorf("executing %q crashed=%v hung=%v: %s", text, out.Crashed, out.Hung, lastLines(out.Stderr, 10))
